@@ -22,11 +22,30 @@ def preorder_ids(s):
     return [] if s is None else [s[0]] + preorder_ids(s[1]) + preorder_ids(s[2])
 
 
-def real_layout(s, ux, uy, repeat):
+def measurement_problem(m):
+    """width / height / centre of the returned measurement against its own bounds"""
+    try:
+        if (Fraction(m.width) != abs(Fraction(m.minX) - Fraction(m.maxX))
+                or Fraction(m.height) != abs(Fraction(m.minY) - Fraction(m.maxY))
+                or Fraction(m.centerX) != Fraction(m.minX) + Fraction(m.width) / 2
+                or Fraction(m.centerY) != Fraction(m.minY) + Fraction(m.height) / 2):
+            return (f"measurement inconsistent: width={m.width} height={m.height} centre=({m.centerX},{m.centerY}) "
+                    f"bounds=({m.minX},{m.maxX},{m.minY},{m.maxY})")
+    except Exception as e:  # noqa
+        return f"measurement fields: {type(e).__name__}"
+    return None
+
+
+def real_layout(s, ux, uy, repeat, under_parent=False):
     nodes = {}
     root = build(s, nodes)
+    if under_parent:
+        # the tree being laid out may be a sub-tree of a larger one (its root has a parent)
+        from mathy_core.tree import BinaryTreeNode
+        BinaryTreeNode(root, None, None, "holder")
     tl = TreeLayout()
     m = tl.layout(root, float(ux), float(uy))
+    real_layout.last_measurement_problem = measurement_problem(m)
     if repeat:
         # alternately the same layout object and a fresh one: both are "laying out the same tree again"
         m = (tl if (len(nodes) + int(ux * 2)) % 2 == 0 else TreeLayout()).layout(root, float(ux), float(uy))
@@ -128,6 +147,19 @@ def c18(ctx):
         except Exception as e:  # noqa
             unlisted.append({"shape": shape_wire(s), "problem": "layout raised " + type(e).__name__})
             continue
+        if real_layout.last_measurement_problem:
+            unlisted.append({"shape": shape_wire(s), "units": [str(ux), str(uy)], "problem": real_layout.last_measurement_problem})
+        # the same shape laid out as a SUB-tree (its root hangs under another node): same coordinates,
+        # same bounds, consistent measurement
+        if not rep and (len(ids_of(s)) + int(ux)) % 3 == 0:
+            try:
+                got2 = real_layout(s, ux, uy, False, under_parent=True)
+                if got2 != got or real_layout.last_measurement_problem:
+                    unlisted.append({"shape": shape_wire(s), "units": [str(ux), str(uy)],
+                                     "problem": "layout of a sub-tree (root with a parent) differs from the layout of the "
+                                                "same shape as a whole tree" if got2 != got else real_layout.last_measurement_problem})
+            except Exception as e:  # noqa
+                unlisted.append({"shape": shape_wire(s), "problem": "layout of a sub-tree raised " + type(e).__name__})
         m = parse_model(a)
         if m is None or (list(got[0]), list(got[1]), got[2]) != (m[0], m[1], m[2]):
             diffs.append({"shape": shape_wire(s), "units": [str(ux), str(uy)], "repeat": rep,
